@@ -647,13 +647,22 @@ func oracle(t []string, out string) *hx.Violation {
 			}
 		}
 	case "pay":
+		if last.tx.pver == 0 && hasDup(last.tx.ph) {
+			return bad("withdraw-duplicate-hash", "a V0 withdrawal naming a side-chain hash twice passes CheckTransactionPayload")
+		}
 		if hasDup(recorded(last.tx)) {
 			return bad("withdraw-output-hash-duplicates", fmt.Sprintf("payload version %d withdrawal recording a side-chain hash twice passes CheckTransactionPayload", last.tx.pver))
 		}
 	case "blk":
-		var all []int
+		var all, payloadOnly []int
 		for _, w := range lastBlk {
 			all = append(all, recorded(w)...)
+			if w.pver == 0 {
+				payloadOnly = append(payloadOnly, w.ph...)
+			}
+		}
+		if hasDup(payloadOnly) { // hashes kept in payloads ARE what CheckDuplicateTx looks at
+			return bad("withdraw-duplicate-hash", "a block whose V0 withdrawals name one side-chain hash twice passes CheckDuplicateTx")
 		}
 		if hasDup(all) {
 			return bad("withdraw-output-hash-duplicates", "a block whose withdrawals record one side-chain hash twice passes CheckDuplicateTx")
